@@ -7,6 +7,7 @@ Quirk = 1
 MaxEvents = 5
 Lists <- ListsC
 HealthVals = {FALSE}
+BalVals = {0, 1}
 INIT Init
 NEXT Next
 CHECK_DEADLOCK FALSE
